@@ -316,7 +316,7 @@ class IntroVisitor(ast.NodeVisitor):
         self._body_lines = function_body_lines
         self._input_sig = function_input_sig
         self._call_stack = call_stack
-        self._store_names: Set[LocalVar] = {current_fun_name}
+        self._store_names: Set[LocalVar] = set()
         self.inters: List[FunctionInteractions] = []
         self.load_paths: List[DDSPath] = []
 
